@@ -89,9 +89,20 @@ def mkHunk (old new : List Nat) (g : List IOp) : Hunk :=
     newStart := first.ni, newEnd := last.ni + newLen last.op,
     lines := g.flatMap (changes old new) }
 
-/-- `UnifiedDiff::iter_hunks` with the default context radius -/
+/-- `UnifiedDiff::iter_hunks` with the default context radius: the code as pinned (`text_diff.unified_diff()`),
+which trusts the index fields `similar` left on the operations -/
 def hunks (n : Nat) (ops : List IOp) (old new : List Nat) : List Hunk :=
   ((groupOps n ops).filter (fun g => !g.isEmpty)).map (mkHunk old new)
+
+/-- `renumber_ops` (output_diff.rs, fix a2545ec): every operation gets the position the operations before it
+lead to -/
+def renumber : (oi ni : Nat) → List IOp → List IOp
+  | _, _, [] => []
+  | oi, ni, x :: rest => ⟨x.op, oi, ni⟩ :: renumber (oi + oldLen x.op) (ni + newLen x.op) rest
+
+/-- `output_diff_unified` after the fix: renumber, group with radius 3, one `UnifiedDiffHunk` per non-empty group -/
+def hunksFixed (n : Nat) (ops : List IOp) (old new : List Nat) : List Hunk :=
+  hunks n (renumber 0 0 ops) old new
 
 /-! ## what applying a unified diff means (the specification) -/
 
